@@ -28,6 +28,7 @@ RULE += (' Also: group handles closed (the twin stops using the group); random h
 RULE += (' Also: reflexive keys with one-sided equality (WideKey / NarrowKey) and an unrelated __ne__.')
 RULE += (' Also: items that are None (grouped by equality or an is-None key).')
 RULE += (' Also: the key failing once with AttributeError / LookupError / RuntimeError.')
+RULE += (' Also: lenient keys equal to any foreign object.')
 ASSUMPTIONS = ["itertools.groupby of the running interpreter is the reference", "keys with reflexive equality only"]
 EXHAUSTIVE_SUBSPACES = "all operation sequences starting with 'adv' of length <= 5 (thorough: 6) over {adv, g-1, g-2, g0} on 12 fixed inputs"
 EXHAUSTIVE = {"quick": False, "thorough": False}
@@ -57,7 +58,7 @@ def cases(tier, seed, shard, nshards):
             r = rng.random()
             ops.append("adv" if r < 0.35 else "g-1" if r < 0.72 else rng.choice(["g-2", "g0", "g-3"]) if r < 0.9
                        else rng.choice(["c-1", "c-1", "c-2", "c0"]))
-        case = {"keys": keys, "key": rng.choice([None, "half", "ahalf", "aident", "noneodd", "anoneodd", "tuple", "onesided", "aonesided"]), "ops": ops,
+        case = {"keys": keys, "key": rng.choice([None, "half", "ahalf", "aident", "noneodd", "anoneodd", "tuple", "onesided", "aonesided", "lenient", "alenient"]), "ops": ops,
                 "flav": rng.choice(["list", "async_gen", "async_class", "sync_iter"]), "susp": rng.choice([0, 0, 1])}
         if rng.random() < 0.06:
             # some items ARE None; grouped by equality (no key) or by a key that can take them
@@ -100,9 +101,30 @@ class NarrowKey:
         return "NarrowKey"
 
 
+class LenientKey:
+    """A duck-typed key: equal to whatever carries the same tag - and to anything that carries NO tag at all (like
+    ``unittest.mock.ANY`` it answers True to foreign objects, placeholders of a library included).  Reflexive and
+    symmetric among keys."""
+    __hash__ = None
+
+    def __init__(self, tag):
+        self.tag = tag
+
+    def __eq__(self, other):
+        return getattr(other, "tag", self.tag) == self.tag
+
+    def __ne__(self, other):
+        return not self == other
+
+    def __repr__(self):
+        return f"LenientKey({self.tag})"
+
+
 def _key_impl(kname):
     if kname is None:
         return None
+    if kname.endswith("lenient"):
+        return lambda x: LenientKey(x.key // 2)
     if kname.endswith("isnone"):
         return lambda x: x is None
     if kname.endswith("onesided"):
